@@ -537,6 +537,21 @@ pub fn prop_lines(bytes: &[u8]) -> String {
         if std::mem::discriminant(&a.kind) != std::mem::discriminant(&b.kind) {
             return format!("FAIL object {i} is read back as a different kind");
         }
+        // ... with the same addition samples in the same banks, for circles, spinners and hold notes (file-named samples and the
+        // per-node lists of sliders are left to C02: findings F18 / F21); seed C04-o: the addition bank taken from the file sample's entry
+        let dflt = |hs: &[rosu_map::section::hit_objects::hit_samples::HitSampleInfo]| {
+            // the additions (whistle / finish / clap): whether a normal sample stands next to a file-named one depends on the file
+            // name surviving the line (finding F21, judged by C02)
+            let v: Vec<_> = hs
+                .iter()
+                .filter(|s| matches!(&s.name, rosu_map::section::hit_objects::hit_samples::HitSampleInfoName::Default(d) if d.to_lowercase_str() != "hitnormal"))
+                .cloned()
+                .collect();
+            names_banks(&v)
+        };
+        if !matches!(a.kind, HitObjectKind::Slider(_)) && dflt(&a.samples) != dflt(&b.samples) {
+            return format!("FAIL object {i}: samples {} are read back as {}", dflt(&a.samples), dflt(&b.samples));
+        }
         if let (HitObjectKind::Slider(sa), HitObjectKind::Slider(sb)) = (&a.kind, &b.kind) {
             if typed_point_repeats_predecessor(a) {
                 continue;
